@@ -23,6 +23,7 @@ import (
 	"github.com/scrapli/scrapligo/driver/generic"
 	"github.com/scrapli/scrapligo/driver/netconf"
 	"github.com/scrapli/scrapligo/driver/network"
+	"github.com/scrapli/scrapligo/driver/opoptions"
 	"github.com/scrapli/scrapligo/driver/options"
 	"github.com/scrapli/scrapligo/transport"
 	"github.com/scrapli/scrapligo/util"
@@ -44,7 +45,9 @@ const (
 // scenarios
 
 var c06scenarios = []string{"g-send", "g-prompt", "g-inter", "g-open", "n-send", "n-open",
-	"nc10-open", "nc11-open", "nc10-rpc", "nc11-rpc", "nc11-rpc2"}
+	"nc10-open", "nc11-open", "nc10-rpc", "nc11-rpc", "nc11-rpc2",
+	// the per-operation options that select another read path
+	"g-send+x", "g-send+e", "g-send+i", "g-inter+x", "g-cb", "n-send+x"}
 
 type c06scen struct {
 	Name  string
@@ -58,6 +61,35 @@ type c06scen struct {
 	out    string
 	secret string
 	delay  time.Duration
+}
+
+// base is the scenario without its operation-option suffix ("g-send+x" -> "g-send"); opt is the
+// suffix: x = ExactMatchInput (echo read by ReadUntilExplicit), e = Eager (no prompt read),
+// i = InterimPromptPatterns (prompt read by ReadUntilAnyPrompt).
+func (s c06scen) base() string {
+	if i := strings.IndexByte(s.Name, '+'); i >= 0 {
+		return s.Name[:i]
+	}
+	return s.Name
+}
+
+func (s c06scen) opt() string {
+	if i := strings.IndexByte(s.Name, '+'); i >= 0 {
+		return s.Name[i+1:]
+	}
+	return ""
+}
+
+func (s c06scen) opOpts() []util.Option {
+	switch s.opt() {
+	case "x":
+		return []util.Option{opoptions.WithExactMatchInput()}
+	case "e":
+		return []util.Option{opoptions.WithEager()}
+	case "i":
+		return []util.Option{opoptions.WithInterimPromptPattern([]*regexp.Regexp{regexp.MustCompile(facts.C06Patterns["password"])})}
+	}
+	return nil
 }
 
 func (s c06scen) id() string {
@@ -231,7 +263,7 @@ func (s c06scen) build() *c06env {
 	e := &c06env{}
 	base := []util.Option{options.WithAuthBypass(), options.WithTimeoutOps(c06Timeout), options.WithReadDelay(s.delay)}
 	switch {
-	case strings.HasPrefix(s.Name, "g-"):
+	case strings.HasPrefix(s.base(), "g-"):
 		dev := sim.NewCLI()
 		prompt := s.host + "#"
 		if s.Rough == 1 {
@@ -260,7 +292,7 @@ func (s c06scen) build() *c06env {
 		e.pipe = dev.Pipe
 		e.lossy = sim.NewLossy(dev, dev.Pipe)
 		opts := append(base, options.WithCustomTransport(e.lossy))
-		if s.Name == "g-open" {
+		if s.base() == "g-open" {
 			dev.Start()
 			opts = append(opts, options.WithOnOpen(func(d *generic.Driver) error {
 				_, err := d.SendCommand("terminal length 0")
@@ -296,9 +328,15 @@ func (s c06scen) build() *c06env {
 			}
 			return nil
 		}
-		switch s.Name {
+		switch s.base() {
 		case "g-send", "g-idle-send":
-			e.op = send
+			e.op = func() (string, error) {
+				r, err := d.SendCommand(s.cmd, s.opOpts()...)
+				if err != nil {
+					return "", err
+				}
+				return r.Result, nil
+			}
 		case "g-prompt", "g-idle-prompt":
 			e.op = prm
 		case "g-inter", "g-idle-inter":
@@ -306,15 +344,46 @@ func (s c06scen) build() *c06env {
 				r, err := d.SendInteractive([]*channel.SendInteractiveEvent{
 					{ChannelInput: "enable", ChannelResponse: facts.C06Patterns["password"]},
 					{ChannelInput: s.secret, ChannelResponse: "", HideInput: true},
-				})
+				}, s.opOpts()...)
 				if err != nil {
 					return "", err
 				}
 				return r.Result, nil
 			}
+		case "g-cb":
+			// SendWithCallbacks: write input + return, then read (Channel.Read in a goroutine of its
+			// own) until the completing callback's pattern matches
+			e.op = func() (string, error) {
+				cb, err := generic.NewCallback(nil, opoptions.WithCallbackContainsRe(regexp.MustCompile("(?im)^[a-z\\d.\\-@()/:]{1,48}[#>$]\\s*$")),
+					opoptions.WithCallbackComplete(), opoptions.WithCallbackInsensitive(false))
+				if err != nil {
+					return "", err
+				}
+				r, err := d.SendWithCallbacks(s.cmd, []*generic.Callback{cb}, c06Timeout)
+				if err != nil {
+					return "", err
+				}
+				return r.Result, nil
+			}
+		case "g-idle-readall":
+			// Channel.ReadAll as an operation of its own (what a console / file consumer polls)
+			// polled a few times: the first call may legitimately hand out bytes received before
+			// the loss; a consumer that keeps polling must be told the stream is gone
+			e.op = func() (string, error) {
+				var all []byte
+				for i := 0; i < 4; i++ {
+					b, err := d.Channel.ReadAll()
+					if err != nil {
+						return "", err
+					}
+					all = append(all, b...)
+					time.Sleep(500 * time.Microsecond)
+				}
+				return string(all), nil
+			}
 		}
 		e.later = []func() (string, error){prm, send}
-	case strings.HasPrefix(s.Name, "n-"):
+	case strings.HasPrefix(s.base(), "n-"):
 		dev := sim.NewCLI()
 		dev.Mode = "exec"
 		dev.Prompt = func(c *sim.CLI) string {
@@ -344,7 +413,7 @@ func (s c06scen) build() *c06env {
 		e.lossy = sim.NewLossy(dev, dev.Pipe)
 		opts := append(base, options.WithCustomTransport(e.lossy), options.WithPrivilegeLevels(c06privs()),
 			options.WithDefaultDesiredPriv("privilege-exec"), options.WithAuthSecondary(s.secret))
-		if s.Name == "n-open" {
+		if s.base() == "n-open" {
 			opts = append(opts, options.WithNetworkOnOpen(func(d *network.Driver) error {
 				_, err := d.SendCommand("terminal length 0")
 				return err
@@ -363,10 +432,16 @@ func (s c06scen) build() *c06env {
 			}
 			return r.Result, nil
 		}
-		e.op = send
+		e.op = func() (string, error) {
+			r, err := d.SendCommand(s.cmd, s.opOpts()...)
+			if err != nil {
+				return "", err
+			}
+			return r.Result, nil
+		}
 		e.later = []func() (string, error){func() (string, error) { return d.GetPrompt() }, send}
 	default: // NETCONF
-		v11 := strings.HasPrefix(s.Name, "nc11")
+		v11 := strings.HasPrefix(s.base(), "nc11")
 		srv := sim.NewNCServer(true, v11)
 		if s.Rough == 1 {
 			srv.HelloSuffix = []byte("\n")
@@ -410,16 +485,16 @@ func (s c06scen) build() *c06env {
 			}
 			return nil
 		}
-		if s.Name == "nc11-rpc2" {
+		if s.base() == "nc11-rpc2" {
 			e.warm = func() error { _, err := rpc(); return err }
 		}
 	}
 	return e
 }
 
-func (s c06scen) atOpen() bool { return strings.HasSuffix(s.Name, "-open") }
-func (s c06scen) isIdle() bool { return strings.Contains(s.Name, "-idle-") }
-func (s c06scen) isNC() bool   { return strings.HasPrefix(s.Name, "nc") }
+func (s c06scen) atOpen() bool { return strings.HasSuffix(s.base(), "-open") }
+func (s c06scen) isIdle() bool { return strings.Contains(s.base(), "-idle-") }
+func (s c06scen) isNC() bool   { return strings.HasPrefix(s.base(), "nc") }
 
 // c06call runs f with the in-child watchdog.
 func c06call(l *sim.Lossy, f func() (string, error)) c06res {
@@ -524,7 +599,7 @@ func c06exec(s c06scen, kind string, k int) (o c06obs) {
 		mark()
 		// what Driver.read holds: bytes delivered so far that no message consumed (a trailing LF
 		// that arrived in a read of its own after the 1.1 end-of-chunks marker)
-		if s.Name == "nc11-rpc2" {
+		if s.base() == "nc11-rpc2" {
 			e.pipe.Snapshot(func() {
 				d := e.pipe.DeliveredBytes()
 				if n := len(e.pipe.ReadLog); n > 0 && e.pipe.ReadLog[n-1] == 1 && len(d) > 0 && d[len(d)-1] == '\n' {
@@ -647,9 +722,17 @@ func (s c06scen) program() []c06phase {
 	sendG := func(cmd, prompt string) []c06phase {
 		return []c06phase{c06W(cmd), c06E(cmd), c06W("\n"), c06P(prompt)}
 	}
-	switch s.Name {
+	switch s.base() {
 	case "g-send", "g-idle-send":
+		switch s.opt() {
+		case "e": // eager: the return is written and nothing more is read
+			return []c06phase{c06W(s.cmd), c06E(s.cmd), c06W("\n")}
+		case "i":
+			return sendG(s.cmd, "Channel.promptPattern+C06.password")
+		}
 		return sendG(s.cmd, "Channel.promptPattern")
+	case "g-cb":
+		return []c06phase{c06W(s.cmd), c06W("\n"), c06P("Channel.promptPattern")}
 	case "g-prompt", "g-idle-prompt":
 		return []c06phase{c06W("\n"), c06P("Channel.promptPattern")}
 	case "g-inter", "g-idle-inter":
@@ -659,7 +742,7 @@ func (s c06scen) program() []c06phase {
 		return sendG("terminal length 0", "Channel.promptPattern")
 	case "n-send", "n-open":
 		cmd := s.cmd
-		if s.Name == "n-open" {
+		if s.base() == "n-open" {
 			cmd = "terminal length 0"
 		}
 		p := []c06phase{c06W("\n"), c06P(c06joined), // GetPrompt
@@ -706,17 +789,17 @@ func c06request(s c06scen, ref c06obs, kind string, ks []int) (string, string) {
 	}
 	if s.isNC() && !s.atOpen() {
 		pat := "Netconf.v1Dot0Delim"
-		if strings.HasPrefix(s.Name, "nc11") {
+		if strings.HasPrefix(s.base(), "nc11") {
 			pat = "Netconf.v1Dot1Delim"
 		}
 		mid := 101
-		if s.Name == "nc11-rpc2" {
+		if s.base() == "nc11-rpc2" {
 			mid = 102
 		}
 		f := []string{"c06", "nc", pat, kind, strings.Join(kl, ","), vlib.Hex(ref.NB), strconv.Itoa(mid)}
 		// the writes of the RPC under test only (later RPCs wrote too)
 		n := 2
-		if strings.HasPrefix(s.Name, "nc11") {
+		if strings.HasPrefix(s.base(), "nc11") {
 			n = 3
 		}
 		if len(ref.Writes) < n {
@@ -728,7 +811,7 @@ func c06request(s c06scen, ref c06obs, kind string, ks []int) (string, string) {
 		return strings.Join(f, " "), ""
 	}
 	prog := s.program()
-	f := []string{"c06", "cli", "1000", "0", kind, strings.Join(kl, ","), "."}
+	f := []string{"c06", "cli", "1000", b2s(s.opt() == "x"), kind, strings.Join(kl, ","), "."}
 	if len(ref.Pre) > 0 {
 		f = append(f, "w;-;"+vlib.HexList(c06chunks(ref.Stream, ref.Cuts, 0, len(ref.Pre))))
 	}
@@ -761,7 +844,7 @@ func (s c06scen) extent(ref c06obs) (int, int) {
 	}
 	if s.isNC() && !s.atOpen() {
 		nw = 2
-		if strings.HasPrefix(s.Name, "nc11") {
+		if strings.HasPrefix(s.base(), "nc11") {
 			nw = 3
 		}
 	}
@@ -775,6 +858,20 @@ func (s c06scen) extent(ref c06obs) (int, int) {
 	}
 	if nw < len(ref.Writes) {
 		L = ref.Writes[nw].Emitted // reactions to the later operations' writes do not count
+	}
+	if !(s.isNC() && !s.atOpen()) {
+		// what the operation consumes ends with its last read phase (an eager send reads no prompt)
+		wr, seen := 0, 0
+		for _, ph := range s.program() {
+			if ph.write != nil {
+				seen++
+			} else {
+				wr = seen
+			}
+		}
+		if wr < nw && wr < len(ref.Writes) {
+			L = ref.Writes[wr].Emitted
+		}
 	}
 	return L, W
 }
@@ -834,8 +931,8 @@ type c06out struct {
 	died string // "" | "exit:<status> <stderr tail>" | "watchdog"
 }
 
-// c06bad counts cases whose outcome already shows a violation (a waited-out timeout, a hang, a
-// later success); past c06badMax the remaining sweeps are cut short: on a broken tree every further
+// c06bad counts cases whose outcome already shows a SLOW violation (a waited-out timeout, a hang, a
+// late return); past c06badMax the remaining sweeps are cut short: on a broken tree every further
 // case would wait out 2 s timeouts and add nothing.
 var c06bad atomic.Int32
 
@@ -846,7 +943,7 @@ func c06looksBad(o c06obs) bool {
 		return true
 	}
 	for _, l := range o.Later {
-		if l.Hang || l.Ident == "timeout" || l.Ident == "nil" || l.SinceLoss > c06Prompt.Microseconds() {
+		if l.Hang || l.Ident == "timeout" || l.SinceLoss > c06Prompt.Microseconds() {
 			return true
 		}
 	}
@@ -1114,7 +1211,7 @@ func runC06(c *ctx) {
 			continue
 		}
 		sw.ireq = map[int]int{}
-		if sw.job.scen.isNC() {
+		if sw.job.scen.isNC() || sw.job.scen.base() == "g-idle-readall" {
 			continue
 		}
 		for _, k := range sw.job.ks {
@@ -1122,7 +1219,7 @@ func runC06(c *ctx) {
 			if !ok || o.died != "" || o.obs.Setup != "" {
 				continue
 			}
-			f := []string{"c06", "idle", "1000", "0", sw.job.kind, "3", vlib.HexList(o.obs.Stale)}
+			f := []string{"c06", "idle", "1000", b2s(sw.job.scen.opt() == "x"), sw.job.kind, "3", vlib.HexList(o.obs.Stale)}
 			for _, ph := range sw.job.scen.program() {
 				if ph.write == nil {
 					f = append(f, "r;"+ph.pred)
@@ -1271,7 +1368,7 @@ func c06judge(c *ctx, sw *c06sweep, out map[int]c06out, answer string) {
 			case strings.Contains(o.died, "panic:"):
 				sig = "panic:" + firstLine(o.died[strings.Index(o.died, "panic:")+6:])
 			}
-			res.Fail("oracle", caseLine, fmt.Sprintf("the process did not survive the loss (%s %s at byte %d of %s): %s", kind, "loss", k, s.Name, o.died), sig)
+			res.Fail("oracle", caseLine, fmt.Sprintf("the process did not survive the loss (%s %s at byte %d of %s): %s", kind, "loss", k, s.base(), o.died), sig)
 			continue
 		}
 		if o.obs.Setup != "" {
@@ -1348,7 +1445,7 @@ func c06judge(c *ctx, sw *c06sweep, out map[int]c06out, answer string) {
 		okc := false
 		for _, x := range modelSet {
 			cl := c06classOf(x)
-			if cl == op.Ident || (strings.HasPrefix(s.Name, "n-") && cl != "nil" && op.Ident == "privilege") {
+			if cl == op.Ident || (strings.HasPrefix(s.base(), "n-") && cl != "nil" && op.Ident == "privilege") {
 				okc = true
 			}
 		}
@@ -1386,7 +1483,8 @@ func c06confirmSlow(c *ctx, sw *c06sweep, k int) bool {
 	return slow
 }
 
-var c06idleScenarios = []string{"g-idle-prompt", "g-idle-send", "g-idle-inter", "nc10-idle-rpc", "nc11-idle-rpc"}
+var c06idleScenarios = []string{"g-idle-prompt", "g-idle-send", "g-idle-inter", "nc10-idle-rpc", "nc11-idle-rpc",
+	"g-idle-send+x", "g-idle-inter+x", "g-idle-readall"}
 
 // c06idleCodes lists (content class, reads) codes: class*4 + reads.
 func c06idleCodes(s c06scen) []int {
@@ -1473,6 +1571,9 @@ func c06judgeIdle(c *ctx, sw *c06sweep, out map[int]c06out, ans []string) {
 			switch {
 			case r.Hang:
 				res.Fail("oracle", caseLine, fmt.Sprintf("%s hung (%s while idle, unread %q)", which, kind, stale), "hang:after-idle-loss")
+				failed = true
+			case r.Ident == "nil" && i == 0 && s.base() == "g-idle-readall":
+				res.Fail("oracle", caseLine, fmt.Sprintf("%s while idle (unread %q): four polls of Channel.ReadAll returned %q and never an error — the loss is invisible to a ReadAll consumer", kind, stale, r.Result), "readall-silent-after-loss:"+kind)
 				failed = true
 			case r.Ident == "nil":
 				res.Fail("oracle", caseLine, fmt.Sprintf("%s while idle with %q delivered but unread (%d reads): %s reported success (%q) on the dead connection", kind, stale, len(o.obs.Stale), which, r.Result), "success-after-idle-loss:stale-queue:"+kind+":"+map[bool]string{true: "first", false: "later"}[i == 0])
